@@ -3,6 +3,13 @@
 The real ``slimta.envelope.Envelope`` is driven through parse / flatten / copy / pickle (HIGHEST_PROTOCOL,
 as the disk, redis and cloud stores do) / re-parse / encode_7bit on generated messages.
 
+Further strata on the same well-formed messages (coverage audit): pickle protocols 2..5; an envelope constructed
+from a pre-split header block (stdlib-parsed ``Message``) + body; ``parse_msg``; the no-encoder 7-bit verdict on
+every shape (8-bit headers with ASCII body, long bodies); rewrites of a parsed envelope -- ``prepend_header``,
+``headers[name] = value``, ``del headers[name]``, ``replace_header``, reading through the Message API, the
+library's own ``AddReceivedHeader`` / ``AddDateHeader`` / ``AddMessageIdHeader`` -- followed by flatten, copy,
+pickle and re-parse; and ``slimta.bounce.Bounce`` embedding the flattened original.
+
 Monitors (public boundary): the two byte strings returned by ``Envelope.flatten()`` of the parsed envelope,
 of its ``copy()``, of its pickle round trip and of a fresh envelope that parsed the flattened output; the
 envelope metadata of the copies; any exception leaving those calls.
@@ -18,9 +25,14 @@ import random
 import traceback
 
 import email
-from email.encoders import encode_base64, encode_quopri
+import email.policy
+from email.parser import BytesParser
+from email.encoders import encode_base64, encode_quopri, encode_7or8bit, encode_noop
 
 from slimta.envelope import Envelope
+from slimta.bounce import Bounce
+from slimta.smtp.reply import Reply
+from slimta.policy.headers import AddDateHeader, AddMessageIdHeader, AddReceivedHeader
 
 PROPERTY = 'C20'
 LEVEL = 'exploration'
@@ -29,7 +41,12 @@ LEVEL_TEXT = ('Real Envelope.parse/flatten/copy/pickle/encode_7bit run on seeded
               '8-bit values incl. U+0085/U+2028/U+2029/Unicode-space/BOM and lone 0x85/0xA0 bytes, duplicate names, lines <= 78 bytes incl. lines of exactly 78, CRLF or LF, arbitrary '
               'body bytes), on arbitrary byte strings for the no-raise claim, and on single-part UTF-8 text/plain '
               'messages for the 7-bit clause; every message is compared with what the generator built, through an '
-              'independent header splitter. Held = held on the messages reported; not a proof for all messages.')
+              'independent header splitter. The same messages (incl. a value that starts on a continuation line, '
+              'top-level multipart/* / message/* / delivery-status content types over MIME-looking bodies, bodies > 8 KiB) '
+              'also go through pickle protocols 2-5, Envelope(headers=<stdlib Message>, message=body), parse_msg, '
+              'encode_7bit() without encoder, one or two header rewrites (prepend_header, Message API assignment / '
+              'deletion / replacement / reading, the three Add*Header policies) each followed by flatten + copy + '
+              'pickle + re-parse, and Bounce embedding. Held = held on the messages reported; not a proof for all messages.')
 LEVEL_NOTE = ('Trusted: the generator\'s own record of what it built, split_header_block (25 lines, cross-checked '
               'against the generator on every input message), the stdlib base64/quoted-printable decoder for the '
               '7-bit clause.')
@@ -42,16 +59,31 @@ RULE = ('case = one generated message; evaluations = the Envelope operations run
         'base64 / quoted-printable in any case / unknown token, i.e. including mislabelled bodies; base64 / '
         'quoted-printable / no encoder). non-trivial & distinct = distinct '
         'wf message with a folded or 8-bit header or whose body starts with a blank or dot line or contains NUL or a '
-        'lone CR; or a distinct 7bit message with non-ASCII text')
+        'lone CR; or a distinct 7bit message with non-ASCII text. Further strata per wf message (counted as '
+        'evaluations, judged against the flattened form of the plain round trip): pickle protocol 2..5, pre-split '
+        'construction, parse_msg (only messages without MIME header fields and with a CRLF-only body), no-encoder '
+        'encode_7bit, two rewrite operations, and for ~30 % a Bounce (full or headers-only)')
 ASSUMPTIONS = ['"same values" is compared on unfolded values (line break before SP/TAB dropped, white space after the '
                'colon dropped), as the statement normalises line endings and does not promise the fold points',
                'header values are built from printable ASCII, 8-bit bytes and inner SP/TAB; ASCII control '
                'characters in header values are outside the judged class (they are in the never-raises class)',
                '7-bit clause: headers of those messages are ASCII; "same text" is exact string equality after '
                'decoding the transfer encoding with the stdlib and the bytes as UTF-8; a difference in line ends '
-               'only is reported under its own mechanism']
+               'only is reported under its own mechanism',
+               'rewrites: "headers intact" is read as: every original field the operation does not name keeps its '
+               'place and unfolded value, the body keeps its bytes, the new field has the given name at the documented '
+               'place; the *value* of an added field is compared word-wise and only for ASCII words of <= 60 characters '
+               'under an unstructured name (how the stdlib folds / RFC 2047-encodes other values is not judged); '
+               're-parse after a rewrite is compared on fields and body (a prepended empty value is generated as '
+               '"Name:" and re-generated as "Name: ")',
+               'parse_msg is judged only where a stdlib Message can carry the message unchanged at all: no MIME header '
+               'fields, body with CRLF line ends only',
+               'exceptions raised inside the stdlib while *reading* hostile header values through envelope.headers '
+               '(items(), get()) are counted, not judged: the statement promises parse/flatten/copy/pickle']
 REQUIRED_HITS = ['body-compared', 'header-fields-compared', 'copy-compared', 'pickle-compared', 'reparse-compared',
-                 'no-raise-judged', '7bit-ascii-and-text-compared', '7bit-refusal-judged']
+                 'no-raise-judged', '7bit-ascii-and-text-compared', '7bit-refusal-judged',
+                 'presplit-compared', 'parse-msg-compared', 'wf-7bit-judged', 'rewrite-compared', 'rewrite-reparse-compared',
+                 'bounce-embed-compared']
 SHARDS = {'quick': 8, 'thorough': 16}
 BUDGET = {'quick': 50, 'thorough': 800}
 
@@ -179,14 +211,17 @@ def gen_fields(rnd):
         ascii_only = True if r < 0.4 else 'usep' if r < 0.6 else False     # value alphabet of this field
         room = 78 - len(name) - len(sep)
         r = rnd.random()
+        efl = False
         if r < 0.04:
             lines = [b'']                                      # empty value
+        elif r < 0.08:
+            lines, efl = [b''], True                           # 'Name:' CRLF ' value': the value starts on a continuation line
         elif r < 0.2 and any(len(s) <= room for s in SPECIAL):
             lines = [rnd.choice([s for s in SPECIAL if len(s) <= room])]
         else:
             lines = [gen_line(rnd, room, ascii_only)]
-        if lines != [b'']:
-            for _ in range(rnd.choice([0, 0, 0, 1, 1, 2, 3])):
+        if lines != [b''] or efl:
+            for _ in range(rnd.choice([1, 1, 2, 3] if efl else [0, 0, 0, 1, 1, 2, 3])):
                 ws = rnd.choice([b' ', b' ', b'\t', b'  ', b' \t', b'\t\t ', b'        '])
                 lines.append(ws + gen_line(rnd, 78 - len(ws), ascii_only))
             # trailing white space is allowed on a line that is not the last one of the value
@@ -215,7 +250,13 @@ def gen_body(rnd):
         k = rnd.choice([3, 8, 20, 60, 150])
         return b''.join(rnd.choice(BPOOL) if rnd.random() < 0.8 else bytes([rnd.randrange(256)])
                         for _ in range(rnd.randrange(1, k + 1)))
-    return bytes(rnd.getrandbits(8) for _ in range(rnd.randrange(1, 300)))
+    if r < 0.97:
+        return bytes(rnd.getrandbits(8) for _ in range(rnd.randrange(1, 300)))
+    # long: more than 8 KiB, one very long line or many lines, the only 8-bit byte (if any) near the end
+    n = rnd.choice([9000, 20000, 70000])
+    unit = rnd.choice([b'x', b'line of text\r\n', b'line\n', b'. \r\n'])
+    out = unit * (n // len(unit))
+    return out + rnd.choice([b'', b'\xe9', b'\xc3\xa9\r\n', b'\x00', b'\r\n.\r\n'])
 
 
 def render(fields, eolstyle, rnd):
@@ -231,18 +272,63 @@ def render(fields, eolstyle, rnd):
     return out, eol()
 
 
+MIME_CT = [[b'multipart/mixed; boundary="b1"'], [b'multipart/alternative; boundary=b1'], [b'multipart/mixed'],
+           [b'multipart/report; report-type=delivery-status;', b'    boundary="b1"'], [b'multipart/digest; boundary=b1'],
+           [b'multipart/signed; boundary=b1;', b'\tprotocol="application/pgp-signature"'], [b'message/rfc822'],
+           [b'message/delivery-status'], [b'text/rfc822-headers'], [b'message/partial; id="x"; number=1; total=2'],
+           [b'message/external-body; access-type=x'], [b'message/global'], [b'MULTIPART/Mixed; BOUNDARY=b1'],
+           [b'text/plain; charset=utf-8'], [b'application/octet-stream']]
+MIME_CTE = [b'7bit', b'8bit', b'binary', b'base64', b'quoted-printable', b'x-unknown']
+
+
+def gen_mime_body(rnd):
+    """A body that *looks* like MIME structure (parts, nested header blocks, inner messages, status blocks): to
+    Envelope.parse it is opaque bytes after the first blank line, whatever the top-level Content-Type says."""
+    eol = rnd.choice([b'\r\n', b'\r\n', b'\n'])
+    inner = rnd.choice([b'Subject: inner' + eol + b'Content-Type: text/plain; charset=utf-8' + eol + eol + b'h\xc3\xa9llo' + eol,
+                        b'From: a@b' + eol + b' folded' + eol + eol + b'x' + eol, b'no header here' + eol,
+                        b'Reporting-MTA: dns; x' + eol + eol + b'Final-Recipient: rfc822; a@b' + eol + b'Action: failed' + eol + b'Status: 5.1.1' + eol,
+                        eol + b'starts blank' + eol, b'\xff\xfe 8-bit \x00' + eol, gen_body(rnd)])
+    r = rnd.random()
+    if r < 0.55:
+        parts = [rnd.choice([inner, b'Content-Type: text/plain' + eol + eol + b'part' + eol,
+                             b'Content-Type: message/rfc822' + eol + eol + inner,
+                             b'Content-Type: multipart/mixed; boundary=b2' + eol + eol + b'--b2' + eol + eol + b'n' + eol + b'--b2--' + eol,
+                             eol + b'headerless part' + eol, b'']) for _ in range(rnd.choice([1, 2, 3]))]
+        out = rnd.choice([b'', b'preamble' + eol, b'pr\xe9amble' + eol, eol])
+        for pt in parts:
+            out += b'--b1' + eol + pt + eol
+        out += rnd.choice([b'--b1--' + eol, b'--b1--' + eol + b'epilogue' + eol, b'', b'--b1--'])
+        return out
+    if r < 0.9:
+        return inner
+    return gen_body(rnd)
+
+
 def gen_wf(rnd):
     fields = gen_fields(rnd)
+    mime = rnd.random() < 0.08
+    if mime:
+        # a top-level Content-Type (and sometimes Content-Transfer-Encoding) that makes the stdlib's *full* parser
+        # descend into the body: multipart/*, message/*, delivery-status, rfc822-headers
+        ct = [list(x) for x in [rnd.choice(MIME_CT)]][0]
+        fields.insert(rnd.randrange(len(fields) + 1), (rnd.choice([b'Content-Type', b'Content-Type', b'content-type', b'CONTENT-TYPE']), b': ', ct))
+        if rnd.random() < 0.4:
+            fields.insert(rnd.randrange(len(fields) + 1), (b'Content-Transfer-Encoding', b': ', [rnd.choice(MIME_CTE)]))
+        if rnd.random() < 0.5:
+            fields.insert(rnd.randrange(len(fields) + 1), (b'MIME-Version', b': ', [b'1.0']))
     r = rnd.random()
     eolstyle = b'\r\n' if r < 0.55 else b'\n' if r < 0.96 else 'mixed'
     block, blank = render(fields, eolstyle, rnd)
-    body = gen_body(rnd)
+    body = gen_mime_body(rnd) if mime and rnd.random() < 0.85 else gen_body(rnd)
     if rnd.random() < 0.02:
         raw, body, shape = block, b'', 'no-blank-line'
     else:
         raw, shape = block + blank + body, 'normal'
-    expect = [[name, b''.join(lines)] for name, sep, lines in fields]
+    expect = [[name, b''.join(lines).lstrip(b' \t')] for name, sep, lines in fields]
     feats = {
+        'mime': mime,
+        'efl': any(l[0] == b'' and len(l) > 1 for _, _, l in fields),
         'folded': any(len(l) > 1 for _, _, l in fields),
         '8bit': any(c > 127 for _, _, l in fields for x in l for c in x),
         'dup': len({n.lower() for n, _, _ in fields}) < len(fields),
@@ -256,6 +342,8 @@ def gen_wf(rnd):
                                         ('nosp', s == b':'), ('first-line-78', len(n + s + l[0]) == 78),
                                         ('cont-line-78', any(len(x) == 78 for x in l[1:])),
                                         ('empty', l == [b'']),
+                                        ('empty-first-line', l[0] == b'' and len(l) > 1),
+                                        ('mime-structural', mime and n.lower() == b'content-type'),
                                         ('unicode-separator', any(has_usep(x) for x in l)),
                                         ('inner-trailing-ws', any(x[-1:] in (b' ', b'\t') for x in l[:-1])))
                         if on) for n, s, l in fields]
@@ -275,6 +363,8 @@ def body_class(body):
         c.append('lone-cr')
     if body[:1] in (b' ', b'\t'):
         c.append('leading-ws')
+    if len(body) > 8192:
+        c.append('long')
     return c
 
 
@@ -306,7 +396,7 @@ def gen_arb(rnd):
         cls = 'no-header-block'
     elif style == 3 or style == 4:
         name = rnd.choice(NAMES + [b'X-Long', b'N' * rnd.choice([60, 79, 200])])
-        n = rnd.choice([70, 77, 78, 79, 80, 120, 300, 998, 999, 1500])
+        n = rnd.choice([70, 77, 78, 79, 80, 120, 300, 998, 999, 1500, 1500, 20000])
         val = rnd.choice(LONGVAL)(rnd, n)
         eol = rnd.choice([b'\r\n', b'\n'])
         raw = name + rnd.choice([b': ', b':']) + val + eol
@@ -392,8 +482,17 @@ CTE_LABELS = {'absent': [None], '7bit': [b'7bit', b'7BIT'], '8bit': [b'8bit', b'
 def gen_7bit(rnd):
     ascii_only = rnd.random() < 0.08
     text = gen_text(rnd, ascii_only)
-    hdrs = [b'Content-Type: ' + rnd.choice([b'text/plain; charset=utf-8', b'text/plain; charset="UTF-8"',
-                                            b'text/plain; charset=utf-8; format=flowed', b'TEXT/PLAIN; CHARSET=UTF-8'])]
+    if rnd.random() < 0.06:
+        # long: the only non-ASCII character sits behind more than 8 KiB of ASCII text
+        unit = rnd.choice(['line of plain text\r\n', 'x' * 70 + '\r\n', 'y' * 997 + '\r\n'])
+        text = unit * (rnd.choice([9000, 30000]) // len(unit)) + ('' if ascii_only else 'fin\xe9') + rnd.choice(['', '\r\n'])
+    r = rnd.random()
+    # how the header block describes the UTF-8 text: charset given (the usual case), text/* without charset, or no
+    # Content-Type at all (an SMTPUTF8 client that sends raw UTF-8 without MIME headers)
+    ctk = 'utf8' if r < 0.7 else 'html-utf8' if r < 0.8 else 'no-charset' if r < 0.9 else 'none'
+    hdrs = {'utf8': [b'Content-Type: ' + rnd.choice([b'text/plain; charset=utf-8', b'text/plain; charset="UTF-8"',
+                                                     b'text/plain; charset=utf-8; format=flowed', b'TEXT/PLAIN; CHARSET=UTF-8'])],
+            'html-utf8': [b'Content-Type: text/html; charset=utf-8'], 'no-charset': [b'Content-Type: text/plain'], 'none': []}[ctk]
     if rnd.random() < 0.7:
         hdrs.append(b'MIME-Version: 1.0')
     # the label the header block carries for the (raw 8-bit) body: honest, absent, or a *mislabel* --
@@ -408,8 +507,9 @@ def gen_7bit(rnd):
         hdrs.append(b'From: sender@example.com')
     rnd.shuffle(hdrs)
     raw = b'\r\n'.join(hdrs) + b'\r\n\r\n' + text.encode('utf-8')
-    return {'kind': '7bit', 'raw': raw, 'text': text, 'encoder': rnd.choice(['base64', 'quopri', 'none']),
-            'cte': label, 'rs': rnd.randrange(1 << 30)}
+    return {'kind': '7bit', 'raw': raw, 'text': text,
+            'encoder': rnd.choice(['base64', 'quopri', 'none', 'base64', 'quopri', 'none', '7or8bit', 'noop']),
+            'cte': label, 'ct': ctk, 'via_pickle': rnd.random() < 0.4, 'rs': rnd.randrange(1 << 30)}
 
 
 def gen_cases(tier, seed, shard, nshards):
@@ -424,7 +524,11 @@ def gen_cases(tier, seed, shard, nshards):
         if left[kind] <= 0:
             kind = max(left, key=left.get)
         left[kind] -= 1
-        yield {'wf': gen_wf, 'arb': gen_arb, '7bit': gen_7bit}[kind](rnd)
+        case = {'wf': gen_wf, 'arb': gen_arb, '7bit': gen_7bit}[kind](rnd)
+        # the further strata (run_wf_extra) cost ~7 ms a message (the plain round trip 0.3 ms): every third message
+        # in quick, every fourth in thorough
+        case['extra'] = i % (4 if tier == 'thorough' else 3) == 0
+        yield case
 
 
 # --------------------------------------------------------------------------- execution + oracle
@@ -597,6 +701,340 @@ def run_wf(case, R):
              'raises/well-formed/reparse/' + w, 're-parse of flattened output raised %r' % exc)
     if feats['folded'] and feats['8bit'] and bc:
         R.sample({'raw': raw[:300], 'flattened_header': h[:300], 'flattened_body': b[:80]})
+    if header_ok and b == want_body and case.get('extra', True):
+        # the further strata are judged against (h, b), so only when the plain round trip itself was right
+        run_wf_extra(case, R, env, h, b, want_fields, viol)
+
+
+# --------------------------------------------------------------------------- further strata on well-formed messages
+# (audit): other pickle protocols, pre-split construction, parse_msg, the no-encoder 7-bit verdict on every
+# well-formed shape, header rewrites through the documented API and by the library's own header policies,
+# and the Bounce that embeds the message.
+
+PICKLE_PROTOCOLS = [2, 3, 4, 5]          # HIGHEST_PROTOCOL of the Pythons slimta ran on (2 = py2 ... 5 = py3.8+)
+STRUCTURED = {b'date', b'from', b'to', b'cc', b'bcc', b'sender', b'reply-to', b'message-id', b'content-type',
+              b'mime-version', b'content-disposition', b'content-transfer-encoding', b'resent-from', b'resent-to',
+              b'resent-cc', b'resent-bcc', b'resent-sender', b'resent-date', b'resent-message-id', b'orig-date'}
+MIME_NAMES = {b'content-type', b'content-transfer-encoding', b'mime-version'}
+STDLIB_POLICIES = {'compat32': email.policy.compat32, 'SMTP': email.policy.SMTP, 'default': email.policy.default}
+ADD_VALUES = [('short', 'simple value'), ('short', 'from a.example (b [192.0.2.1]) by c.example with ESMTP; Mon, 1 Jan 2024 00:00:00 +0000'),
+              ('many-words', 'w ' * 60 + 'end'), ('many-words', ' '.join('tok%d' % i for i in range(40))),
+              ('exactly-fills-line', 'x' * 60), ('long-token', 'a' * 200), ('long-token', 'for <' + '>,<'.join('r%d@example.com' % i for i in range(30)) + '>'),
+              ('non-ascii', 'h\xe9llo w\xf6rld'), ('non-ascii', '日本 ' * 30), ('empty', ''), ('short', 'tab\tseparated'),
+              ('short', 'a@b.example, "C D" <c@d.example>'), ('encoded-word-lookalike', '=?utf-8?q?x?= y')]
+CLIENT_NAMES = ['mail.example.com', 'h\xe9lo.example', '[192.0.2.1]', 'x' * 200, '', None, 'a b (c) <d>;', '日本']
+ASCII_SHORT = [v for v in ADD_VALUES if v[0] == 'short']
+
+
+def pick_value(rnd, name):
+    """Free text (8-bit, empty, over-long words) only under unstructured names: what the stdlib makes of a
+    non-ASCII Message-ID or Date handed to it is not the envelope's business."""
+    return rnd.choice(ASCII_SHORT if name.lower().encode('latin-1') in STRUCTURED else ADD_VALUES)
+
+
+REWRITE_OPS = ['prepend', 'prepend', 'append', 'delete', 'replace', 'policy-received', 'policy-received', 'policy-date',
+               'policy-message-id', 'read']
+
+
+def fields_of(h):
+    got, rest, probs = split_header_block(h)
+    return finish_fields(got), (probs or rest != b'' or b'\r' in h.replace(b'\r\n', b'') or b'\n' in h.replace(b'\r\n', b''))
+
+
+def value_judgeable(name, val):
+    return (name.lower().encode('latin-1') not in STRUCTURED and val.isascii() and val.strip() != '' and '=?' not in val
+            and all(len(t) <= 60 for t in val.split()))
+
+
+def run_wf_extra(case, R, env, h, b, want_fields, viol):
+    rnd = random.Random(case['rs'] ^ 0x5eed)
+    feats = case['feats']
+    shape = ('mime' if feats.get('mime') else '') + ('8bit' if feats['8bit'] else 'ascii')
+
+    def fresh():
+        e = new_env(case['rs'])
+        e.parse(case['raw'])
+        return e
+
+    # ---- the other pickle protocols a stored envelope may have been written with
+    proto = rnd.choice(PICKLE_PROTOCOLS)
+    R.eval()
+    try:
+        p = pickle.loads(pickle.dumps(env, proto))
+        R.count('pickle-protocol-%d-compared' % proto)
+        if p.flatten() != (h, b) or meta(p) != meta(env):
+            viol('pickle/protocol-%d/flatten-or-metadata-differs' % proto, 'pickle round trip (protocol %d) differs' % proto,
+                 got=p.flatten(), want=(h, b))
+    except Exception as exc:
+        viol('raises/well-formed/pickle-protocol-%d/%s' % (proto, where(exc)), 'pickle protocol %d raised %r' % (proto, exc))
+
+    # ---- envelope built from a pre-split header block (a stdlib-parsed Message) and the body bytes
+    polname = rnd.choice(['compat32', 'SMTP'])
+    blk = case['raw'][:len(case['raw']) - len(case['body'])] if feats['shape'] == 'normal' else case['raw']
+    R.eval()
+    try:
+        hm = BytesParser(policy=STDLIB_POLICIES[polname]).parsebytes(blk, headersonly=True)
+        e3 = Envelope('s@x.example', ['r@y.example'], headers=hm, message=case['body'])
+        h3, b3 = e3.flatten()
+        R.hit('presplit-compared')
+        f3, bad = fields_of(h3)
+        if bad or f3 != want_fields:
+            viol('presplit/%s/header-fields-differ' % polname, 'Envelope(headers=<Message parsed by the stdlib, policy %s>, '
+                 'message=body).flatten() does not give the fields of the header block as CRLF lines' % polname,
+                 got_header=h3, want=want_fields)
+        if b3 != case['body']:
+            viol('presplit/%s/body-differs' % polname, 'flatten() of a pre-split envelope changed the body', got_body=b3)
+        p3 = pickle.loads(pickle.dumps(e3, pickle.HIGHEST_PROTOCOL))
+        if p3.flatten() != (h3, b3) or e3.copy().flatten() != (h3, b3):
+            viol('presplit/%s/copy-or-pickle-differs' % polname, 'copy / pickle of a pre-split envelope flattens differently',
+                 got=p3.flatten(), want=(h3, b3))
+    except Exception as exc:
+        viol('raises/well-formed/presplit-%s/%s' % (polname, where(exc)), 'pre-split envelope raised %r' % exc)
+
+    # ---- parse_msg: the message handed over as a stdlib Message object
+    names = {f[0].lower() for f in want_fields}
+    crlf_only = b'\r' not in case['body'].replace(b'\r\n', b'') and b'\n' not in case['body'].replace(b'\r\n', b'')
+    polname = rnd.choice(['compat32', 'SMTP', 'default'])
+    if feats['shape'] == 'normal' and not (names & MIME_NAMES) and crlf_only:
+        # judged class: no MIME headers (the Message is a single opaque text part) and a CRLF-only body (a Message
+        # does not remember which line break a text payload used -- the recorded base64 finding has the same root)
+        R.eval()
+        try:
+            msg = email.message_from_bytes(case['raw'], policy=STDLIB_POLICIES[polname])
+            e5 = new_env(case['rs'])
+            e5.parse_msg(msg)
+            h5, b5 = e5.flatten()
+            R.hit('parse-msg-compared')
+            f5, bad = fields_of(h5)
+            if bad or f5 != want_fields:
+                viol('parse-msg/%s/header-fields-differ' % polname, 'parse_msg(Message) does not give the header fields '
+                     'of the message', got_header=h5, want=want_fields)
+            if b5 != case['body']:
+                viol('parse-msg/%s/body-differs' % polname, 'parse_msg(Message) changed the body', got_body=b5)
+        except Exception as exc:
+            viol('raises/well-formed/parse-msg-%s/%s' % (polname, where(exc)), 'parse_msg raised %r' % exc)
+    else:
+        R.count('parse-msg-not-judged/mime-headers-or-body-not-crlf-only')
+
+    # ---- 7-bit verdict without an encoder on every well-formed shape (8-bit *headers* do not make a body 8-bit)
+    body8 = not case['body'].isascii()
+    R.eval()
+    e7 = fresh()
+    try:
+        e7.encode_7bit()
+        refused = False
+    except UnicodeDecodeError:
+        refused = True
+    except Exception as exc:
+        refused = None
+        viol('encode-7bit/no-encoder/well-formed/raises/' + where(exc), 'encode_7bit() raised %r' % exc)
+    if refused is not None:
+        R.hit('wf-7bit-judged')
+        R.observe('wf-7bit', (shape, body8, 'long' in body_class(case['body'])))
+        if body8 and not refused:
+            viol('encode-7bit/no-encoder/well-formed/8bit-passed-on', 'no encoder given and the 8-bit body was not refused')
+        if not body8 and refused:
+            viol('encode-7bit/no-encoder/well-formed/ascii-body-refused', 'pure ASCII body refused')
+        if e7.flatten() != (h, b):
+            viol('encode-7bit/no-encoder/well-formed/envelope-changed', 'encode_7bit() without encoder changed the envelope',
+                 got=e7.flatten(), want=(h, b))
+    if not body8:
+        encname = rnd.choice(['base64', 'quopri'])
+        R.eval()
+        try:
+            e7.encode_7bit(ENCODERS[encname])
+            R.count('wf-7bit-ascii-body-with-encoder-judged-unchanged')
+            if e7.flatten() != (h, b):
+                viol('encode-7bit/%s/well-formed/ascii-body-message-changed' % encname,
+                     'a message with a pure ASCII body was changed by encode_7bit(encoder)', got=e7.flatten(), want=(h, b))
+        except Exception as exc:
+            viol('encode-7bit/%s/well-formed/raises/%s' % (encname, where(exc)), 'encode_7bit(encoder) on an ASCII body raised %r' % exc)
+
+    # ---- header rewrites
+    for op in rnd.sample(REWRITE_OPS, 2):
+        run_rewrite(case, R, fresh(), op, rnd, h, b, want_fields, viol)
+
+    # ---- the bounce that embeds the message
+    if rnd.random() < 0.3:
+        run_bounce(case, R, fresh(), rnd, h, b, viol)
+
+
+def run_rewrite(case, R, e, op, rnd, h, b, want_fields, viol):
+    """One rewrite of a parsed envelope.  Judged: nothing raises; the flattened block is CRLF lines; every original
+    field that the operation does not name is still there, same order, same value; the body is the same bytes; the
+    new field has the given name at the documented place (first for prepend / Received, last for an assignment);
+    its value is compared only where unfolding alone must give it back (ASCII words of <= 60 characters under an
+    unstructured name); copy / pickle of the rewritten envelope flatten identically; re-parsing the flattened
+    result gives the same fields and body."""
+    vclass = ''
+    expect_new = None                      # (position 'first'|'last', name, value or None)
+    keep = [list(f) for f in want_fields]
+    R.eval()
+    pre = rnd.random() < 0.5
+    try:
+        if pre:
+            # the envelope has already been flattened once (a first delivery attempt, a policy that looked at the
+            # bytes) before it is rewritten: flatten() must not answer from what it generated earlier
+            e.flatten()
+        if op == 'prepend':
+            name = rnd.choice(['Received', 'X-Verif-Added', 'X-Verif-Added', want_fields[0][0].decode('latin-1'), 'Subject', 'To'])
+            vclass, val = pick_value(rnd, name)
+            e.prepend_header(name, val)
+            expect_new = ('first', name, val)
+        elif op == 'append':
+            vclass, val = rnd.choice(ADD_VALUES)
+            name = 'X-Verif-Appended'
+            e.headers[name] = val
+            expect_new = ('last', name, val)
+        elif op == 'delete':
+            name = rnd.choice(want_fields)[0]
+            del e.headers[name.decode('latin-1')]
+            keep = [f for f in keep if f[0].lower() != name.lower()]
+            vclass = 'dup' if len(want_fields) - len(keep) > 1 else 'single'
+        elif op == 'replace':
+            i = rnd.randrange(len(want_fields))
+            name = want_fields[i][0]
+            vclass, val = pick_value(rnd, name.decode('latin-1'))
+            first = next(j for j, f in enumerate(want_fields) if f[0].lower() == name.lower())
+            e.headers.replace_header(name.decode('latin-1'), val)
+            keep[first] = [keep[first][0], None if not value_judgeable(name.decode('latin-1'), val) else val]
+        elif op == 'policy-received':
+            e.client = {'ip': rnd.choice(['192.0.2.7', '2001:db8::1', None]), 'name': rnd.choice(CLIENT_NAMES),
+                        'host': rnd.choice(['ptr.example.com', None, 'p\xe9.example']),
+                        'protocol': rnd.choice(['ESMTP', 'ESMTPSA', 'UTF8SMTP', None]), 'auth': None}
+            e.recipients = (['rcpt%d@example.com' % j for j in range(rnd.choice([0, 1, 3, 30]))]
+                            + rnd.choice([[], ['\xfc@x.example'], ['"a b"@x.example']]))
+            vclass = 'rcpts-%d' % len(e.recipients)
+            AddReceivedHeader().apply(e)
+            expect_new = ('first', 'Received', None)
+        elif op == 'policy-date':
+            present = any(f[0].lower() == b'date' for f in want_fields)
+            vclass = 'present' if present else 'absent'
+            AddDateHeader().apply(e)
+            expect_new = None if present else ('last', 'Date', None)
+        elif op == 'policy-message-id':
+            present = any(f[0].lower() == b'message-id' for f in want_fields)
+            vclass = 'present' if present else 'absent'
+            AddMessageIdHeader('verif.example').apply(e)
+            expect_new = None if present else ('last', 'Message-Id', None)
+        elif op == 'read':
+            # reading through the Message API parses values inside the stdlib; what it returns (or raises, on
+            # hostile values) is the stdlib's business -- the envelope must not change by being looked at
+            try:
+                for k, v in e.headers.items():
+                    str(v)
+                e.headers.get('subject'), e.headers.get_all('received'), 'date' in e.headers, e.headers.keys()
+                R.count('header-read-ok')
+            except Exception as exc:
+                R.observe('header-read-raises-inside-stdlib', where(exc))
+                R.count('header-read-raised-inside-stdlib (observed, outside the statement)')
+        h2, b2 = e.flatten()
+    except Exception as exc:
+        viol('rewrite/%s/raises/%s' % (op, where(exc)), '%s on a parsed well-formed message raised %r' % (op, exc),
+             traceback=traceback.format_exception(type(exc), exc, exc.__traceback__)[-3:])
+        return
+    R.hit('rewrite-compared')
+    R.observe('rewrite-op', (op, vclass, 'flattened-before' if pre else 'fresh'))
+    f2, bad = fields_of(h2)
+    if bad:
+        viol('rewrite/%s/header-block-not-crlf-lines' % op, 'flattened header block after %s is not CRLF lines + one '
+             'blank line' % op, got_header=h2)
+        return
+
+    def same(g, k):            # k[1]: bytes = must be equal, None = not judged, str = replaced value (word-wise)
+        return g[0] == k[0] and (k[1] is None or (g[1].split() == k[1].encode().split() if isinstance(k[1], str)
+                                                  else g[1] == k[1]))
+
+    new = None
+    if expect_new and len(f2) == len(keep) and all(same(g, k) for g, k in zip(f2, keep)):
+        viol('rewrite/%s/new-field-missing' % op, 'the flattened block after %s has the old fields only: the new %s field '
+             'is not there' % (op, expect_new[1]), got_header=h2, flattened_before_the_rewrite=pre)
+        return
+    if expect_new and f2:
+        new = f2[0] if expect_new[0] == 'first' else f2[-1]
+        f2 = f2[1:] if expect_new[0] == 'first' else f2[:-1]
+    ok = len(f2) == len(keep) and all(same(g, k) for g, k in zip(f2, keep))
+    if not ok:
+        viol('rewrite/%s/original-fields-changed' % op, 'after %s the other header fields are not the original ones in the '
+             'original order' % op, got_header=h2, want_other_fields=keep, header_before=h, flattened_before_the_rewrite=pre)
+    elif b2 != b:
+        viol('rewrite/%s/body-changed' % op, '%s changed the body' % op, got_body=b2)
+    elif expect_new:
+        pos, name, val = expect_new
+        if new is None or new[0] != name.encode('latin-1'):
+            viol('rewrite/%s/new-field-misplaced' % op, 'the new %s field is not %s in the flattened block' % (name, pos),
+                 got_header=h2)
+        elif val is not None and value_judgeable(name, val):
+            R.count('rewrite-new-value-compared')
+            if new[1].split() != val.encode().split():
+                viol('rewrite/%s/new-value-differs' % op, 'the new field does not carry the given value', got_value=new[1], want_value=val)
+        else:
+            R.count('rewrite-new-value-not-judged (structured name, non-ASCII, empty or over-long word)')
+    elif op in ('policy-date', 'policy-message-id', 'read') and (h2, b2) != (h, b):
+        viol('rewrite/%s/changed-although-nothing-to-do' % op, '%s changed an envelope it had nothing to add to' % op,
+             got_header=h2, header_before=h)
+    # copy / pickle / re-parse of the rewritten envelope
+    try:
+        proto = rnd.choice(PICKLE_PROTOCOLS)
+        R.eval(3)
+        if e.copy().flatten() != (h2, b2):
+            viol('rewrite/%s/copy-differs' % op, 'copy() of the rewritten envelope flattens differently', want=(h2, b2))
+        if pickle.loads(pickle.dumps(e, proto)).flatten() != (h2, b2):
+            viol('rewrite/%s/pickle-differs' % op, 'pickle round trip of the rewritten envelope flattens differently', want=(h2, b2))
+        if not fields_of(h2)[0]:
+            R.count('rewrite-left-no-field (re-parse not judged: outside the quantifier)')
+            return
+        e4 = Envelope()
+        e4.parse(h2 + b2)
+        h4, b4 = e4.flatten()
+        R.hit('rewrite-reparse-compared')
+        if (fields_of(h4)[0], b4) != (fields_of(h2)[0], b2):
+            viol('rewrite/%s/reparse-fields-or-body-differ' % op, 're-parsing the flattened rewritten envelope gives other '
+                 'fields or another body', got=(h4, b4), want=(h2, b2))
+        elif (h4, b4) == (h2, b2):
+            R.count('rewrite-reparse-byte-identical')
+    except Exception as exc:
+        viol('rewrite/%s/copy-pickle-reparse-raises/%s' % (op, where(exc)), 'copy/pickle/re-parse after %s raised %r' % (op, exc))
+
+
+def run_bounce(case, R, e, rnd, h, b, viol):
+    headers_only = rnd.random() < 0.4
+    kind = 'headers-only' if headers_only else 'full'
+    if e.sender is None:
+        e.sender = 's@x.example'
+    R.eval()
+    try:
+        bo = Bounce(e, Reply('550', '5.1.1 no such user h\xe9re'), headers_only=headers_only)
+        bh, bb = bo.flatten()
+    except Exception as exc:
+        viol('bounce/%s/raises/%s' % (kind, where(exc)), 'building the bounce raised %r' % exc,
+             traceback=traceback.format_exception(type(exc), exc, exc.__traceback__)[-3:])
+        return
+    R.hit('bounce-embed-compared')
+    R.observe('bounce', (kind, case['feats']['8bit'], case['feats']['eol'], case['feats'].get('mime')))
+    bf, bad = fields_of(bh)
+    i = bh.find(b'boundary="')
+    boundary = bh[i + 10:bh.find(b'"', i + 10)] if i >= 0 else b''
+    ctype = b'text/rfc822-headers' if headers_only else b'message/rfc822'
+    tail = b'\r\n--' + boundary + b'\r\nContent-Type: ' + ctype + b'\r\n\r\n' + h + (b'' if headers_only else b) + b'\r\n--' + boundary + b'--\r\n'
+    if bad or not boundary or [f[0] for f in bf][:3] != [b'From', b'To', b'Subject']:
+        viol('bounce/%s/own-header-block-damaged' % kind, 'the header block of the bounce is not its template', got_header=bh)
+    elif not bb.endswith(tail):
+        viol('bounce/%s/original-not-embedded-unchanged' % kind, 'the bounce does not end with the original header block%s '
+             'between the last two boundaries' % ('' if headers_only else ' and body'), got_tail=bb[-(len(tail) + 40):], want_tail=tail)
+    if e.flatten() != (h, b):
+        viol('bounce/%s/original-envelope-changed' % kind, 'building the bounce changed the original envelope')
+    try:
+        R.eval(2)
+        if pickle.loads(pickle.dumps(bo, pickle.HIGHEST_PROTOCOL)).flatten() != (bh, bb):
+            viol('bounce/%s/pickle-differs' % kind, 'pickle round trip of the bounce flattens differently')
+        e4 = Envelope()
+        e4.parse(bh + bb)
+        if e4.flatten() != (bh, bb):
+            viol('bounce/%s/reparse-not-a-fixed-point' % kind, 're-parsing the flattened bounce gives a different result',
+                 got=e4.flatten(), want=(bh, bb))
+    except Exception as exc:
+        viol('bounce/%s/pickle-reparse-raises/%s' % (kind, where(exc)), 'pickle / re-parse of the bounce raised %r' % exc)
 
 
 def run_arb(case, R):
@@ -615,6 +1053,19 @@ def run_arb(case, R):
         stage = 'pickle'
         R.eval()
         pickle.loads(pickle.dumps(env, pickle.HIGHEST_PROTOCOL)).flatten()
+        stage = 'pickle-protocol-%d' % (2 + case['rs'] % 4)
+        pickle.loads(pickle.dumps(env, 2 + case['rs'] % 4)).flatten()
+        # the first thing the library does to an accepted message is to put a Received field in front of it:
+        # flatten / copy / pickle must not raise afterwards either, whatever the rest of the block looks like
+        stage = 'prepend-then-flatten'
+        R.eval()
+        e2 = env.copy()
+        e2.prepend_header('Received', 'from a.example (b [192.0.2.1]) by c.example with ESMTP; Mon, 1 Jan 2024 00:00:00 +0000')
+        h2, b2 = e2.flatten()
+        stage = 'prepend-then-copy-pickle'
+        e2.copy().flatten()
+        pickle.loads(pickle.dumps(e2, pickle.HIGHEST_PROTOCOL)).flatten()
+        R.count('arbitrary/prepend-then-flatten-copy-pickle-judged')
         R.hit('no-raise-judged')
         R.observe('arbitrary-outcome', (case['cls'], len(env.headers.keys()), bool(b), bool(env.headers.defects)))
     except Exception as exc:
@@ -625,7 +1076,7 @@ def run_arb(case, R):
                      'traceback': traceback.format_exception(type(exc), exc, exc.__traceback__)[-4:]})
 
 
-ENCODERS = {'base64': encode_base64, 'quopri': encode_quopri, 'none': None}
+ENCODERS = {'base64': encode_base64, 'quopri': encode_quopri, 'none': None, '7or8bit': encode_7or8bit, 'noop': encode_noop}
 
 
 def run_7bit(case, R):
@@ -643,10 +1094,25 @@ def run_7bit(case, R):
         d.update(kw)
         R.violation(mech, what, d)
 
+    ctk = case.get('ct', 'utf8')
     env = new_env(case['rs'])
     env.parse(raw)
+    if case.get('via_pickle'):
+        # as in production: the relay converts an envelope that the queue loaded from its store
+        env = pickle.loads(pickle.dumps(env, pickle.HIGHEST_PROTOCOL))
+    R.observe('7bit-content-type-and-path', (ctk, bool(case.get('via_pickle')), encname, len(raw) > 8192))
     h0, b0 = env.flatten()
     R.eval()
+    if encname in ('7or8bit', 'noop'):
+        # "encoders" of email.encoders that do not encode: outside the quantifier (base64 / quoted-printable); only
+        # observed -- and they must not raise
+        try:
+            env.encode_7bit(ENCODERS[encname])
+            h, b = env.flatten()
+            R.count('7bit-non-encoding-encoder-observed/' + ('still-8bit' if not (h + b).isascii() else 'ascii'))
+        except Exception as exc:
+            viol('encode-7bit/%s/raises/%s' % (encname, where(exc)), 'encode_7bit raised %r' % exc)
+        return
     if encname == 'none':
         try:
             env.encode_7bit()
@@ -655,6 +1121,8 @@ def run_7bit(case, R):
             R.observe('7bit-refusal', (type(exc).__name__, eightbit))
             if not eightbit:
                 viol('encode-7bit/no-encoder/ascii-body-refused', 'pure ASCII body refused: %r' % exc)
+            if env.flatten() != (h0, b0):
+                viol('encode-7bit/no-encoder/refused-but-envelope-changed', 'the refused envelope was changed')
             return
         if eightbit:
             R.hit('7bit-refusal-judged')
@@ -672,7 +1140,7 @@ def run_7bit(case, R):
     if eightbit:
         R.count('7bit-ascii-judged/cte-label-' + label)
     if not (h + b).isascii():
-        viol('encode-7bit/%s/8bit-passed-on/cte-label-%s' % (encname, label),
+        viol('encode-7bit/%s/8bit-passed-on/cte-label-%s' % (encname, label) + ('' if ctk == 'utf8' else '/content-type-' + ctk),
              'encoder given, but the result of encode_7bit still contains 8-bit bytes (header block labels the '
              'body %s)' % label, flattened=(h, b))
         return
@@ -704,7 +1172,8 @@ def run_7bit(case, R):
                  decoded=got, flattened=(h, b))
         else:
             viol('encode-7bit/%s/text-differs' % encname, 'decoded text differs', decoded=got, flattened=(h, b))
-    elif m.is_multipart() or cs != 'utf-8' or m.get_content_type() != 'text/plain' or len(ctes) > 1:
+    elif (m.is_multipart() or len(ctes) > 1 or (cs != 'utf-8' and ctk in ('utf8', 'html-utf8'))
+          or m.get_content_type() != ('text/html' if ctk == 'html-utf8' else 'text/plain')):
         viol('encode-7bit/%s/mime-headers-damaged' % encname,
              'content type / charset / transfer-encoding headers no longer describe the text '
              '(type %s, charset %s, CTE %r)' % (m.get_content_type(), cs, ctes), flattened=(h, b))
@@ -712,6 +1181,20 @@ def run_7bit(case, R):
         R.count('7bit-text-equal')
         if eightbit and len(R.samples) < 2:
             R.sample({'encoder': encname, 'text': text[:80], 'flattened_body': b[:120]})
+    # the converted envelope is what gets sent, re-queued on a transient failure and bounced: it must itself
+    # survive copy / pickle / re-parse
+    try:
+        R.eval(3)
+        e4 = Envelope()
+        e4.parse(h + b)
+        if (env.copy().flatten() != (h, b) or pickle.loads(pickle.dumps(env, pickle.HIGHEST_PROTOCOL)).flatten() != (h, b)
+                or e4.flatten() != (h, b)):
+            viol('encode-7bit/%s/result-not-a-fixed-point' % encname, 'copy / pickle / re-parse of the converted envelope '
+                 'flattens differently', flattened=(h, b), reparsed=e4.flatten())
+        else:
+            R.count('7bit-result-fixed-point')
+    except Exception as exc:
+        viol('encode-7bit/%s/result-copy-pickle-reparse-raises/%s' % (encname, where(exc)), 'raised %r' % exc)
 
 
 def run_case(case, R):
